@@ -143,6 +143,8 @@ pub open spec fn dot_inv(orig: Seq<Token>, n: int, cur: Seq<Token>, rm: Seq<usiz
             &&& cur[s as int] == orig[s as int]
             &&& forall|j: int| s < j < cursor - 1 ==> in_rm(rm, j)
             &&& tiles(keepseq(cur, rm, s as int), bnd(orig, n, s as int))
+            // the period that closed the latest pair is the last index scheduled for removal
+            &&& rm.len() > 0 && rm[rm.len() - 1] as int == cursor - 2
         }
     }
 }
@@ -171,42 +173,67 @@ pub proof fn lemma_dot_chunk(orig: Seq<Token>, n: int, cur: Seq<Token>, rm0: Seq
             lemma_keepseq_agree(cur, cur, rm0, rm1, c - 1);
             assert(!in_rm(rm1, c - 1));
             assert(in_rm(rm1, c));
+            assert(rm1[rm1.len() - 1] as int == c);
         }
         Some(s) => {
             lemma_keepseq_agree(cur, cur, rm0, rm1, s as int);
             assert(in_rm(rm1, c - 1)); assert(in_rm(rm1, c));
             assert(!in_rm(rm1, s as int));
+            assert(rm1[rm1.len() - 1] as int == c);
         }
     }
 }
 
-// a non-chunk pair: an open initialism is closed by extending its first token up to token cursor-2
-pub proof fn lemma_dot_close(orig: Seq<Token>, n: int, cur0: Seq<Token>, rm: Seq<usize>, st0: Option<usize>, c: int, cur1: Seq<Token>)
-    requires dot_common(orig, n, cur0, rm, c), dot_inv(orig, n, cur0, rm, st0, c),
+// a non-chunk pair: an open initialism of two or more letter-period pairs is closed by extending its first token up to
+// token cursor-2; a single pair ("So do I.") is not an initialism: its period is taken off the removal list again
+pub proof fn lemma_dot_close(orig: Seq<Token>, n: int, cur0: Seq<Token>, rm0: Seq<usize>, st0: Option<usize>, c: int, cur1: Seq<Token>, rm1: Seq<usize>)
+    requires dot_common(orig, n, cur0, rm0, c), dot_inv(orig, n, cur0, rm0, st0, c), incr(rm0),
         forall|i: int| 0 <= i < orig.len() ==> (#[trigger] cur0[i]).span.start == orig[i].span.start,
-        st0 is None ==> cur1 == cur0,
-        st0 matches Some(s) ==> cur1.len() == cur0.len() && (forall|i: int| 0 <= i < cur0.len() && i != s ==> cur1[i] == cur0[i])
-            && cur1[s as int].span.start == cur0[s as int].span.start && cur1[s as int].span.end == cur0[c - 2].span.end && cur1[s as int].kind == cur0[s as int].kind,
-    ensures dot_inv(orig, n, cur1, rm, None, c), dot_common(orig, n, cur1, rm, c),
+        st0 is None ==> cur1 == cur0 && rm1 == rm0,
+        st0 matches Some(s) ==> (c - 2 == s + 1 ==> cur1 == cur0 && rm1 == rm0.drop_last()),
+        st0 matches Some(s) ==> (c - 2 != s + 1 ==> rm1 == rm0 && cur1.len() == cur0.len() && (forall|i: int| 0 <= i < cur0.len() && i != s ==> cur1[i] == cur0[i])
+            && cur1[s as int].span.start == cur0[s as int].span.start && cur1[s as int].span.end == cur0[c - 2].span.end && cur1[s as int].kind == cur0[s as int].kind),
+    ensures dot_inv(orig, n, cur1, rm1, None, c), dot_common(orig, n, cur1, rm1, c),
         forall|i: int| 0 <= i < orig.len() ==> (#[trigger] cur1[i]).span.start == orig[i].span.start,
 {
     match st0 {
         None => {}
         Some(s) => {
             let si = s as int;
-            lemma_in_rm_bound(rm, c);
-            assert(in_rm(rm, c - 2));           // c-2 lies strictly between s and the frontier
-            assert(cur0[c - 2] == orig[c - 2]);
-            lemma_tiles_bnd(orig, n, c - 2);
-            lemma_tiles_bnd(orig, n, si);
-            lemma_tiles_mono(orig, n, si, c - 2);
-            // kept prefix below s is unchanged
-            lemma_keepseq_agree(cur0, cur1, rm, rm, si);
-            // s is kept, (s, c-1) is removed
-            lemma_keepseq_skip(cur1, rm, si + 1, c - 1);
-            assert(keepseq(cur1, rm, si + 1) == keepseq(cur1, rm, si).push(cur1[si]));
-            lemma_tiles_push(keepseq(cur1, rm, si), cur1[si], bnd(orig, n, si));
-            assert(bnd(orig, n, c - 1) == orig[c - 2].span.end);
+            lemma_in_rm_bound(rm0, c);
+            if c - 2 == si + 1 {
+                let last = rm0.len() - 1;
+                assert(rm0[last] as int == si + 1);
+                // membership after dropping the last (largest) index
+                assert forall|i: int| #[trigger] in_rm(rm1, i) <==> (in_rm(rm0, i) && i != si + 1) by {
+                    if in_rm(rm1, i) { let k = choose|k: int| 0 <= k < rm1.len() && #[trigger] rm1[k] as int == i; assert(rm0[k] as int == i); assert(rm0[k] < rm0[last]); }
+                    if in_rm(rm0, i) && i != si + 1 { let k = choose|k: int| 0 <= k < rm0.len() && #[trigger] rm0[k] as int == i; assert(k < last); assert(rm1[k] as int == i); }
+                }
+                assert(in_rm(rm0, si + 1)) by { assert(rm0[last] as int == si + 1); }
+                assert(cur0[si + 1] == orig[si + 1]);
+                assert(!in_rm(rm1, si) && !in_rm(rm1, si + 1));
+                lemma_keepseq_agree(cur0, cur0, rm0, rm1, si);
+                lemma_tiles_bnd(orig, n, si);
+                lemma_tiles_bnd(orig, n, si + 1);
+                assert(keepseq(cur0, rm1, si + 1) == keepseq(cur0, rm1, si).push(cur0[si]));
+                lemma_tiles_push(keepseq(cur0, rm1, si), cur0[si], bnd(orig, n, si));
+                assert(keepseq(cur0, rm1, si + 2) == keepseq(cur0, rm1, si + 1).push(cur0[si + 1]));
+                lemma_tiles_push(keepseq(cur0, rm1, si + 1), cur0[si + 1], bnd(orig, n, si + 1));
+                assert forall|k: int| 0 <= k < rm1.len() implies #[trigger] rm1[k] + 1 < c by { assert(rm0[k] + 1 < c); }
+            } else {
+                assert(in_rm(rm0, c - 2));           // c-2 lies strictly between s and the frontier
+                assert(cur0[c - 2] == orig[c - 2]);
+                lemma_tiles_bnd(orig, n, c - 2);
+                lemma_tiles_bnd(orig, n, si);
+                lemma_tiles_mono(orig, n, si, c - 2);
+                // kept prefix below s is unchanged
+                lemma_keepseq_agree(cur0, cur1, rm0, rm0, si);
+                // s is kept, (s, c-1) is removed
+                lemma_keepseq_skip(cur1, rm0, si + 1, c - 1);
+                assert(keepseq(cur1, rm0, si + 1) == keepseq(cur1, rm0, si).push(cur1[si]));
+                lemma_tiles_push(keepseq(cur1, rm0, si), cur1[si], bnd(orig, n, si));
+                assert(bnd(orig, n, c - 1) == orig[c - 2].span.end);
+            }
         }
     }
 }
@@ -567,10 +594,11 @@ DOTTED = dict(
             dict(before='if is_initialism_chunk', kind='ghost', text='let ghost c0 = cursor;'),
             dict(before='if is_initialism_chunk', kind='ghost', text='let ghost st0 = initialism_start;'),
             dict(after='cursor += 1', nth=1, text='lemma_dot_chunk(orig, n, cur0, rm0, st0, c0 as int, to_remove@);'),
-            dict(after='initialism_start = None', text='lemma_dot_close(orig, n, cur0, rm0, st0, c0 as int, self.tokens@); lemma_dot_step(orig, n, self.tokens@, rm0, c0 as int);'),
+            dict(after='initialism_start = None', text='lemma_dot_close(orig, n, cur0, rm0, st0, c0 as int, self.tokens@, to_remove@); lemma_dot_step(orig, n, self.tokens@, to_remove@, c0 as int);'),
             dict(at='after_loop', loop=1, kind='ghost', text='let ghost cur1 = self.tokens@;'),
             dict(at='after_loop', loop=1, kind='ghost', text='let ghost st1 = initialism_start;'),
-            dict(before='self.tokens.remove_indices', text='lemma_dot_close(orig, n, cur1, to_remove@, st1, cursor as int, self.tokens@); if cursor == orig.len() { lemma_dot_step(orig, n, self.tokens@, to_remove@, cursor as int); }'),
+            dict(at='after_loop', loop=1, kind='ghost', text='let ghost rmf = to_remove@;'),
+            dict(before='self.tokens.remove_indices', text='lemma_dot_close(orig, n, cur1, rmf, st1, cursor as int, self.tokens@, to_remove@); if cursor == orig.len() { lemma_dot_step(orig, n, self.tokens@, to_remove@, cursor as int); }'),
             ],
     loops={1: dict(
         invariant=['self.tokens@.len() == orig.len()', 'orig.len() >= 2', 'orig.len() + 2 <= usize::MAX', 'tiles(orig, n)', 'n == self.source@.len()',
